@@ -2,7 +2,8 @@
 
 model():    exhaustive TLC runs of the design model (loss-free sequential = the C05/C14 quantifier, free loss, concurrent
             writes) and the three configurations that MUST fail (documented observations: a stale NETWORK_ACK is believed,
-            a relay echoes a multicast back to its origin, two relays deliver a multicast twice).
+            a relay echoes a multicast back to its origin, two relays deliver a multicast twice, lost radio ACKs duplicate
+            a frame, the NETWORK_ACK of the first fragment makes write() report True before the last fragment arrived).
 conform():  executions of real nodes on the simulated air, recorded at the model's linearisation points (application
             call, packet entering a radio's RX FIFO, radio-level result of a transmission, payload taken out of the FIFO,
             return, application read) and validated event by event by the total monitor TraceNetNode.tla.
@@ -22,9 +23,9 @@ TOPOS = {
     "B": ([0, 0o1, 0o2, 0o11, 0o12, 0o21], [], []),
     "C": ([0, 0o1, 0o3, 0o11, 0o31, 0o111, 0o1111], [0o1, 0o11], []),
 }
-MC_OK = ["NetNode_c05", "NetNode_loss", "NetNode_conc", "NetNode_live"]
+MC_OK = ["NetNode_c05", "NetNode_loss", "NetNode_conc", "NetNode_live", "NetNode_frag", "NetNode_fragloss"]
 MC_MUST_FAIL = {"NetNode_stale": "AckAnswersTheAwaited", "NetNode_echo": "C14_NoEcho", "NetNode_relay2": "C05_AtMostOnce",
-                "NetNode_dup": "C05_AtMostOnce"}
+                "NetNode_dup": "C05_AtMostOnce", "NetNode_fragtrue": "TrueMeansWholeMessageArrived"}
 
 
 def lvl(a):
@@ -43,7 +44,7 @@ def route(s, d):
 
 
 def model(chk, quick):
-    for cfg in MC_OK if not quick else ["NetNode_quick", "NetNode_live"]:
+    for cfg in MC_OK if not quick else ["NetNode_quick", "NetNode_live", "NetNode_fragq"]:
         r = tlc.mc("NetNode", cfg, timeout=1800)
         chk.add_tlc(r, "NetNode.tla %s: the node algorithm satisfies the C05/C13/C14 clauses on the bounded tree" % cfg)
     for cfg, inv in MC_MUST_FAIL.items():
@@ -56,9 +57,9 @@ def model(chk, quick):
 # ---- recording ---------------------------------------------------------------------------------------------------
 def frame_of(data):
     if len(data) < 8:
-        return dict(src=-2, dst=-2, typ=-2, id=-2, msg=list(data))
-    fr, to, fid, typ, _res = struct.unpack("<HHHBB", bytes(data[:8]))
-    return dict(src=fr, dst=to, typ=typ, id=fid, msg=list(data[8:]))
+        return dict(src=-2, dst=-2, typ=-2, rsv=0, id=-2, msg=list(data))
+    fr, to, fid, typ, rsv = struct.unpack("<HHHBB", bytes(data[:8]))
+    return dict(src=fr, dst=to, typ=typ, rsv=rsv, id=fid, msg=list(data[8:]))
 
 
 def job_mcast(src_name, msg, mtype, level):
@@ -132,7 +133,7 @@ def scenario(args):
     for e in ns.ev:
         if e["k"] == "call" and e["api"] in ("write", "multicast"):
             o = ns.objs[e["n"]]
-            f = dict(src=e["src"], dst=e["to"], typ=e["type"], id=e["id"], msg=e["msg"])
+            f = dict(src=e["src"], dst=e["to"], typ=e["type"], rsv=0, id=e["id"], msg=e["msg"])
             if e["api"] == "write":
                 ev.append((e["t"], 4, dict(k="write", n=e["src"], f=f)))
             else:
@@ -140,7 +141,7 @@ def scenario(args):
         elif e["k"] == "ret" and e["api"] in ("write", "multicast"):
             ev.append((e["t"], 4, dict(k="ret", n=addr[e["n"]], res=bool(e["res"]), exc=e["exc"])))
         elif e["k"] == "deq":
-            ev.append((e["t"], 4, dict(k="deq", n=addr[e["n"]], f=dict(src=e["from"], dst=e["to"], typ=e["type"], id=e["id"], msg=e["msg"]))))
+            ev.append((e["t"], 4, dict(k="deq", n=addr[e["n"]], f=dict(src=e["from"], dst=e["to"], typ=e["type"], rsv=0, id=e["id"], msg=e["msg"]))))
         elif e["k"] in ("crash", "hang"):
             ev.append((e["t"], 4, dict(k="crash", n=addr.get(e.get("n"), -1), what=str(e.get("exc", "hang")))))
     groups = {}
@@ -178,7 +179,8 @@ def jobs_for(seed, quick):
         for typ in (1, 65, 127):
             sel = pairs if not quick else pairs[: max(8, len(pairs) // 3)]
             for i in range(0, len(sel), 6):
-                out.append((topo, "seq", [(s, d, typ, rng.randrange(0, 25)) for (s, d) in sel[i:i + 6]], [], rng.randrange(1 << 30), 3000))
+                out.append((topo, "seq", [(s, d, typ, rng.choice((rng.randrange(0, 25), rng.randrange(0, 25), 25, 48, 49, rng.randrange(25, 100))))
+                                          for (s, d) in sel[i:i + 6]], [], rng.randrange(1 << 30), 3000))
         # (b) one failing transmission on a routed ack-type write: every hop of the forward path and of the ACK path, lost
         #     packet or lost radio ACKs
         routed = [(s, d) for (s, d) in pairs if len(route(s, d)) > 2]
@@ -226,6 +228,8 @@ CONSTANTS
   Relays = {%s}
   NoMc = {%s}
   Types = {1}
+  Lens = {1}
+  FragLen = 24
   MaxWrites = 0
   MaxLoss = 0
   Concurrent = TRUE
